@@ -73,7 +73,7 @@ pub fn run(rep: &Report) {
     rep.set_rule("cases = (claim tree, object node, planted name, planted value, position first/last, strategy, format) -> issuance must be refused; controls (unplanted tree, look-alike names) must be issued; non-trivial = planted below the root (nested object, inside an array, or inside a value that becomes hidden); distinct by construction");
     rep.assume("a refusal is any Err from issue_sd_jwt; no SD-JWT string is returned with it (Result type)");
     let quick = rep.quick();
-    let (n, d) = if quick { (4, 3) } else { (5, 4) };
+    let (n, d) = if quick { (4, 3) } else { (6, 4) };
     let ts = trees(n, d);
     let names = ["_sd", "..."];
     let lookalikes = ["_sdx", "_s", "..", "....", " _sd", "_SD", "_sd_alg_x", "…"];
